@@ -485,6 +485,7 @@ impl Analyzable for Expression
 				location,
 			} =>
 			{
+				analyzer.is_immediate_function_argument = false;
 				let members = members
 					.into_iter()
 					.map(|member| {
